@@ -277,6 +277,26 @@ func checkC15(c *Ctx) {
 				special(fmt.Sprintf("sibling-readonly/%d", len(body)), map[string]string{"main.zn": zr.Render(mainP, zr.Layout{}), "模乙.zn": zr.Render(modW, zr.Layout{})}, nil, mainP, modsW)
 			}
 		}
+		// a module that consists of 导入 statements only is a module like any other: what it imports
+		// is loaded (once, before the importer goes on), a missing module behind it is an error, a
+		// cycle through it is reported
+		{
+			leaf := &zr.Program{Body: []zr.Stmt{&zr.FuncDef{Name: "叶法", Body: []zr.Stmt{zr.Return{E: intLit(3)}}}, zr.Show(zr.S("body:叶"))}}
+			relay := &zr.Program{Imports: []zr.Import{{Name: "叶"}}}
+			relay2 := &zr.Program{Imports: []zr.Import{{Name: "中转"}}}
+			mainC := &zr.Program{Imports: []zr.Import{{Name: "中转"}}, Body: []zr.Stmt{zr.Show(zr.S("main"))}}
+			special("import-only-module/chain", map[string]string{"main.zn": zr.Render(mainC, zr.Layout{}), "中转.zn": zr.Render(relay, zr.Layout{}), "叶.zn": zr.Render(leaf, zr.Layout{})}, nil, mainC, map[string]*zr.Program{"中转": relay, "叶": leaf})
+			mainC2 := &zr.Program{Imports: []zr.Import{{Name: "再转"}}, Body: []zr.Stmt{zr.Show(zr.S("main"))}}
+			special("import-only-module/two-relays", map[string]string{"main.zn": zr.Render(mainC2, zr.Layout{}), "再转.zn": zr.Render(relay2, zr.Layout{}), "中转.zn": zr.Render(relay, zr.Layout{}), "叶.zn": zr.Render(leaf, zr.Layout{})}, nil, mainC2, map[string]*zr.Program{"再转": relay2, "中转": relay, "叶": leaf})
+			mainD := &zr.Program{Imports: []zr.Import{{Name: "中转"}, {Name: "叶"}}, Body: []zr.Stmt{zr.Show(zr.S("main"), zr.CallE("叶法"))}}
+			special("import-only-module/diamond", map[string]string{"main.zn": zr.Render(mainD, zr.Layout{}), "中转.zn": zr.Render(relay, zr.Layout{}), "叶.zn": zr.Render(leaf, zr.Layout{})}, nil, mainD, map[string]*zr.Program{"中转": relay, "叶": leaf})
+			relayBad := &zr.Program{Imports: []zr.Import{{Name: "并不存在"}}}
+			special("import-only-module/missing-behind", map[string]string{"main.zn": zr.Render(mainC, zr.Layout{}), "中转.zn": zr.Render(relayBad, zr.Layout{})}, nil, mainC, map[string]*zr.Program{"中转": relayBad})
+			back := &zr.Program{Imports: []zr.Import{{Name: "中转"}}, Body: []zr.Stmt{zr.Show(zr.S("body:叶"))}}
+			special("import-only-module/cycle-through", map[string]string{"main.zn": zr.Render(mainC, zr.Layout{}), "中转.zn": zr.Render(relay, zr.Layout{}), "叶.zn": zr.Render(back, zr.Layout{})}, nil, mainC, map[string]*zr.Program{"中转": relay, "叶": back})
+			relayLib := &zr.Program{Imports: []zr.Import{{Name: "@缺失库", Std: true}}}
+			special("import-only-module/missing-library-behind", map[string]string{"main.zn": zr.Render(mainC, zr.Layout{}), "中转.zn": zr.Render(relayLib, zr.Layout{})}, map[string]map[string]zr.Value{}, mainC, map[string]*zr.Program{"中转": relayLib})
+		}
 		// a module file that happens to be called like the main module
 		namedMain := &zr.Program{Body: []zr.Stmt{&zr.FuncDef{Name: "法", Body: []zr.Stmt{zr.Return{E: intLit(7)}}}, zr.Show(zr.S("body:主模块"))}}
 		mainM := &zr.Program{Imports: []zr.Import{{Name: "主模块"}}, Body: []zr.Stmt{zr.Show(zr.CallE("法"))}}
